@@ -3,7 +3,7 @@
    Print Assumptions. Model: Cluster/Remote.v; proofs: Cluster/RemoteProofs.v (proxy, chains),
    Cluster/RemoteNetProofs.v (two-node system). *)
 From Coq Require Import List NArith Bool Sorted.
-From RV Require Import Cluster.Remote Cluster.RemoteProofs.
+From RV Require Import Cluster.Remote Cluster.RemoteProofs Cluster.RemoteNetProofs.
 Import ListNotations.
 Local Open Scope N_scope.
 
@@ -38,6 +38,84 @@ Theorem C20_reply_finds_open : forall c ok st t p d,
   snd (pstep c ok st (PReply t d)) = [OResolve p d].
 Proof. exact proxy_reply_finds_open. Qed.
 
+(* ====================================================================== *)
+(* the two-node system: every theorem below quantifies over ALL label sequences, i.e. every
+   interleaving of: senders, callers abandoning, each proxy, each stage of both chains
+   (mailboxes, writer, pipe, reader; any number of stages), both sessions, each real actor, reply
+   tasks, spawn/join/leave/exit on the actors' node, and connection loss; and over arbitrary user
+   code [resp] of the real actors *)
+
+(* composition of FIFO stages is a FIFO: entering at stage 0 appends to the flattened chain, an
+   inner hop does not change it, leaving at the last stage takes its head; a cut keeps a prefix *)
+Theorem C20_chain_is_fifo : forall (A : Type) (l : list (list A)) (x : A),
+  flat (push x l) = flat l ++ [x]
+  /\ (forall i, flat (hop i l) = flat l)
+  /\ (forall y l', pop_last l = Some (y, l') -> flat l = y :: flat l')
+  /\ (forall k, exists rest, flat l = flat (cut k l) ++ rest).
+Proof.
+  intros A l x. split; [apply flat_push|]. split; [intros i; apply flat_hop|].
+  split; [intros y l'; apply flat_pop|intros k; apply flat_cut].
+Qed.
+
+(* (1) tags inserted into pending by a proxy are strictly increasing, hence pairwise distinct,
+   bounded by the counter, and pending only holds inserted pairs *)
+Theorem C20_tags_fresh : forall resp nf nb ls pid, let st := run resp (init nf nb) ls in
+  x_alive (px st pid) = true ->
+  StronglySorted N.lt (map fst (ins st pid))
+  /\ NoDup (map fst (ins st pid))
+  /\ (forall e, In e (ins st pid) -> fst e <= p_tag (x_st (px st pid)))
+  /\ incl (p_pend (x_st (px st pid))) (ins st pid).
+Proof. exact net_tags_fresh. Qed.
+
+(* (2) end to end: a caller's port is only ever resolved with the real actor's answer to the very
+   call that was made with this port (ports identify calls uniquely) — whatever else is
+   outstanding, abandoned, reclaimed, reordered among reply tasks, or lost *)
+Theorem C20_reply_correlation : forall resp nf nb ls p d, let st := run resp (init nf nb) ls in
+  In (p, d) (res st) ->
+  exists pid m, In (pid, m, p) (calls st) /\ m_call m = true /\ resp pid m = Some d
+                /\ forall pid' m', In (pid', m', p) (calls st) -> pid' = pid /\ m' = m.
+Proof. exact net_reply_correlation. Qed.
+
+(* (3) per target, what the real actor handled is a subsequence of what its remote reference
+   accepted: same messages (cast/call, variant, bytes), same order; hence per sender, for every
+   way [f] of attributing messages to senders *)
+Theorem C20_fifo_per_sender : forall resp nf nb ls pid (f : msg -> bool),
+  let st := run resp (init nf nb) ls in
+  subseq (filter f (dlv st pid)) (filter f (sent st pid)).
+Proof. exact net_fifo_per_sender. Qed.
+
+(* (3') and as long as no fault hit the target (it did not exit, its proxy was not terminated,
+   the session did not close) nothing is lost: accepted = handled ++ still in flight, so what
+   was handled is a prefix and at quiescence everything has been handled *)
+Theorem C20_fifo_no_gaps : forall resp nf nb ls pid, let st := run resp (init nf nb) ls in
+  lossy st pid = false -> sent st pid = dlv st pid ++ inflight st pid.
+Proof. exact net_fifo_no_gaps. Qed.
+
+(* (4) mirror: replaying the lifecycle frames still in flight on X's view of pid yields exactly
+   Y's state of pid (alive / exited / unknown, and its groups); the replay never revives a
+   terminated proxy (ksim would be None) *)
+Theorem C20_mirror_lifecycle : forall resp nf nb ls pid, let st := run resp (init nf nb) ls in
+  up st = true ->
+  ksim pid (xview (px st pid)) (flat (bwd st) ++ ctl st) = Some (yview (tg st pid)).
+Proof. exact net_mirror. Qed.
+
+(* (4') once the Spawn/PgJoin/PgLeave/Terminate frames about pid have been processed, the proxy
+   exists iff the original is alive and is in exactly the original's groups *)
+Theorem C20_mirror_settled : forall resp nf nb ls pid, let st := run resp (init nf nb) ls in
+  up st = true ->
+  (forall f, In f (flat (bwd st) ++ ctl st) -> is_ctl_for pid f = false) ->
+  x_alive (px st pid) = t_alive (tg st pid) /\ x_groups (px st pid) = t_groups (tg st pid).
+Proof. exact net_mirror_settled. Qed.
+
+(* (4'') after the session closed every proxy is stopped, in no group, sends to it fail (the state
+   does not change, nothing is accepted), and this stays so whatever happens next *)
+Theorem C20_closed : forall resp nf nb ls pid, let st := run resp (init nf nb) ls in
+  up st = false ->
+  x_alive (px st pid) = false /\ x_groups (px st pid) = []
+  /\ (forall m port, step resp st (LSend pid m port) = st)
+  /\ forall ls', let st' := run resp st ls' in up st' = false /\ x_alive (px st' pid) = false.
+Proof. exact net_closed. Qed.
+
 (* ---- statement pins ---- *)
 Check (C20_tags_fresh_proxy : forall evs st outs,
   prun pst0 evs = (st, outs) ->
@@ -46,7 +124,41 @@ Check (C20_tags_fresh_proxy : forall evs st outs,
   /\ p_tag st = ncalls evs
   /\ forall e, In e (inserted evs outs) -> 0 < fst e <= ncalls evs).
 
+Check (C20_reply_correlation : forall resp nf nb ls p d, let st := run resp (init nf nb) ls in
+  In (p, d) (res st) ->
+  exists pid m, In (pid, m, p) (calls st) /\ m_call m = true /\ resp pid m = Some d
+                /\ forall pid' m', In (pid', m', p) (calls st) -> pid' = pid /\ m' = m).
+Check (C20_fifo_per_sender : forall resp nf nb ls pid (f : msg -> bool),
+  let st := run resp (init nf nb) ls in
+  subseq (filter f (dlv st pid)) (filter f (sent st pid))).
+Check (C20_mirror_settled : forall resp nf nb ls pid, let st := run resp (init nf nb) ls in
+  up st = true ->
+  (forall f, In f (flat (bwd st) ++ ctl st) -> is_ctl_for pid f = false) ->
+  x_alive (px st pid) = t_alive (tg st pid) /\ x_groups (px st pid) = t_groups (tg st pid)).
+
 (* ---- non-vacuity ---- *)
+Definition ex_resp (pid : N) (m : msg) : option (list N) := Some (pid :: m_a m).
+Definition ex_ls : list label :=
+  [LSpawn 5; LCtl; LHopB 0; LDeliverB;
+   LJoin 5 9; LCtl; LHopB 0; LDeliverB;
+   LSend 5 (mkMsg false 1 [7]) 0; LSend 5 (mkMsg true 2 [8]) 100; LSend 5 (mkMsg true 2 [6]) 101;
+   LProxy 5; LProxy 5; LProxy 5; LAbandon 101;
+   LHopF 0; LHopF 0; LHopF 0; LDeliverF; LDeliverF; LDeliverF; LTarget 5; LTarget 5; LTarget 5;
+   LReplyTask 1; LReplyTask 0; LHopB 0; LHopB 0; LDeliverB; LDeliverB; LProxy 5; LProxy 5].
+Example ex_net :
+  let st := run ex_resp (init 1 1) ex_ls in
+  (dlv st 5, res st, ins st 5, x_alive (px st 5), x_groups (px st 5), lossy st 5, inflight st 5)
+  = ([mkMsg false 1 [7]; mkMsg true 2 [8]; mkMsg true 2 [6]], [(100, [5; 8])], [(1, 100); (2, 101)],
+     true, [9], false, []).
+Proof. vm_compute. reflexivity. Qed.
+Example ex_net_exit_close :
+  let st := run ex_resp (init 1 1) (ex_ls ++ [LExit 5; LCtl; LCtl; LHopB 0; LHopB 0; LDeliverB; LDeliverB]) in
+  let st' := run ex_resp (init 1 1) (ex_ls ++ [LSend 5 (mkMsg false 1 [1]) 0; LClose 1; LSend 5 (mkMsg false 1 [2]) 0]) in
+  (x_alive (px st 5), x_groups (px st 5), up st, x_alive (px st' 5), x_groups (px st' 5), up st', sent st' 5, dlv st' 5)
+  = (false, [], true, false, [], false,
+     [mkMsg false 1 [7]; mkMsg true 2 [8]; mkMsg true 2 [6]; mkMsg false 1 [1]],
+     [mkMsg false 1 [7]; mkMsg true 2 [8]; mkMsg true 2 [6]]).
+Proof. vm_compute. reflexivity. Qed.
 Definition ex_evs : list pev :=
   [ (([], true), PSend (mkMsg true 1 [7]) 100);
     (([], true), PSend (mkMsg true 1 [8]) 101);
@@ -67,3 +179,11 @@ Proof. vm_compute. reflexivity. Qed.
 Print Assumptions C20_tags_fresh_proxy.
 Print Assumptions C20_reply_correlation_proxy.
 Print Assumptions C20_reply_finds_open.
+Print Assumptions C20_chain_is_fifo.
+Print Assumptions C20_tags_fresh.
+Print Assumptions C20_reply_correlation.
+Print Assumptions C20_fifo_per_sender.
+Print Assumptions C20_fifo_no_gaps.
+Print Assumptions C20_mirror_lifecycle.
+Print Assumptions C20_mirror_settled.
+Print Assumptions C20_closed.
